@@ -262,7 +262,7 @@ func c35Classify(r LiveConfigResult) c35Out {
 		o.Class = "unchanged"
 	case !r.Applied && !r.Unchanged && r.Code == "precondition_failed":
 		o.Class = "precondition_failed"
-	case !r.Applied && !r.Unchanged && (r.Code == "invalid" || r.Code == "unsupported"):
+	case !r.Applied && !r.Unchanged && (r.Code == "invalid" || r.Code == "unsupported" || r.Code == "prepare_failed"):
 		o.Class = "rejected"
 	default:
 		o.Class = fmt.Sprintf("malformed:%+v", r)
